@@ -108,6 +108,11 @@ def alter(c, blob, kind, p):
     items = list(V.seq_items(blob))
     if kind == "byte":
         items[p] = c.int("mut", 0, 255)
+        kid = blob_layout("envelope")["kid"]
+        if kid + 16 <= p < kid + 24:
+            # L1 / L2 octets of the key identifier: the derivation loop that follows forks once per value, one after the other; enumerating the
+            # 256 values up front yields the same paths but lets the 16 workers share them
+            items[p] = c.concretize(items[p])
     elif kind == "byte2":
         items[p[0]] = c.int("mut", 0, 255)
         items[p[1]] = c.int("mut2", 0, 255)
@@ -122,8 +127,35 @@ def alter(c, blob, kind, p):
     return V.SymBytes(items).norm() if c.symbolic else bytes(items)
 
 
+_CONCRETE = {}
+
+
+def _concrete_blob(c, layout):
+    """the concrete-content blob is the same on every path: build it once per process and re-install the (purely concrete) records of the
+    ideal primitives into a fresh world"""
+    import copy
+
+    if layout not in _CONCRETE:
+        from vlib import api
+
+        ctx = api.NativeCtx({}, 10_000_000)
+        try:
+            w0, pt, root, blob = make_blob(ctx, layout=layout, concrete=True)
+        finally:
+            ctx.unpatch()
+        _CONCRETE[layout] = (dict(kdf_records=w0.kdf_records, concat_records=w0.concat_records, aead=w0.aead, wraps=w0.wraps, n=w0.n, kdf_new=w0.kdf_new), bytes(pt), bytes(root), bytes(blob))
+    snap, pt, root, blob = _CONCRETE[layout]
+    lo, _ = e2e.window(361, 31, 31, -7, -7)
+    w = e2e.new_world(c, lo, lo, concrete=True, extra=[(_dns.lookup_dc, _no_network), (_client._sync_get_key, _no_network),
+                                                        (_dns.async_lookup_dc, _no_network_async), (_client._async_get_key, _no_network_async)])
+    w.kdf_records = {k: list(v) for k, v in snap["kdf_records"].items()}
+    w.concat_records = {k: list(v) for k, v in snap["concat_records"].items()}
+    w.aead, w.wraps, w.n, w.kdf_new = list(snap["aead"]), list(snap["wraps"]), snap["n"], snap["kdf_new"]
+    return w, pt, root, blob
+
+
 def unprotect_altered(c, kind, p, layout="envelope", flavour="sync", concrete=False):
-    w, pt, root, blob = make_blob(c, layout=layout, concrete=concrete)
+    w, pt, root, blob = _concrete_blob(c, layout) if concrete else make_blob(c, layout=layout, concrete=concrete)
     bad = alter(c, blob, kind, p)
     cache2 = e2e.loaded_cache(c, root, "SHA512")
     if flavour == "sync":
